@@ -894,7 +894,11 @@ impl S3 for FileSystem {
             ..
         } = req.input;
 
-        let Some(multipart_upload) = multipart_upload else { return Err(s3_error!(InvalidPart)) };
+        // a request without a part list, or with an empty one, is malformed
+        let listed = multipart_upload.and_then(|m| m.parts).unwrap_or_default();
+        if listed.is_empty() {
+            return Err(s3_error!(MalformedXML, "the list of parts is missing or empty"));
+        }
 
         let upload_id = Uuid::parse_str(&upload_id).map_err(|_| s3_error!(NoSuchUpload))?;
         self.verify_upload_id(req.credentials.as_ref(), &upload_id, &bucket, &key)
@@ -902,19 +906,19 @@ impl S3 for FileSystem {
 
         let object_path = self.get_object_path(&bucket, &key)?;
 
-        // validate the part list and the uploaded parts before anything is changed
-        // (part numbers need not be consecutive: they must be listed in strictly ascending order)
-        let mut prev: Option<i32> = None;
-        let mut parts: Vec<(i32, PathBuf, u64)> = Vec::new();
-        for part in multipart_upload.parts.into_iter().flatten() {
-            let part_number = part
-                .part_number
-                .ok_or_else(|| s3_error!(InvalidRequest, "missing part number"))?;
-            if prev.is_some_and(|prev| part_number <= prev) {
-                return Err(s3_error!(InvalidRequest, "invalid part order"));
-            }
-            prev = Some(part_number);
-
+        // validate the part list and the uploaded parts before anything is changed:
+        // every listed part has a number,
+        let mut numbers: Vec<i32> = Vec::with_capacity(listed.len());
+        for part in &listed {
+            numbers.push(part.part_number.ok_or_else(|| s3_error!(MalformedXML, "missing part number"))?);
+        }
+        // the numbers are strictly ascending (they need not be consecutive),
+        if numbers.windows(2).any(|w| w[0] >= w[1]) {
+            return Err(s3_error!(InvalidPartOrder));
+        }
+        // every listed part has been uploaded,
+        let mut parts: Vec<(i32, PathBuf, u64)> = Vec::with_capacity(numbers.len());
+        for part_number in numbers {
             let part_path = self.resolve_upload_part_path(upload_id, part_number)?;
             let Ok(part_meta) = fs::metadata(&part_path).await else {
                 return Err(s3_error!(InvalidPart, "part {part_number} has not been uploaded"));
